@@ -4,8 +4,8 @@ From Pi2 Require Import Taut.Model Taut.Sets Taut.Resolution Taut.PLModel Taut.G
 Import ListNotations.
 
 Definition helper_specs2 (simp : list Z -> Z -> core) (triv : list Z -> core) : Prop :=
-  (forall cl x, cl <> [] -> simp cl x = k_equiv (clause_core cl) (clause_core (simplify_clause cl x))) /\
-  (forall cl, is_trivial (mkset cl) = true -> triv cl = clause_core cl).
+  (forall cl x, cl <> [] -> Forall nz cl -> simp cl x = k_equiv (clause_core cl) (clause_core (simplify_clause cl x))) /\
+  (forall cl, Forall nz cl -> is_trivial (mkset cl) = true -> triv cl = clause_core cl).
 
 Lemma helper_specs2_ok : forall simp triv, helper_specs2 simp triv -> helper_specs (pieces_merge simp triv).
 Proof.
